@@ -36,8 +36,11 @@ func PadPKCS7(buf []byte, size int) ([]byte, error) {
 	}
 	bufLen := len(buf)
 	padLen := size - bufLen%size
-	padding := bytes.Repeat([]byte{byte(padLen)}, padLen)
-	return append(buf, padding...), nil
+	// Always allocate a new slice: appending to buf would write into the caller's spare capacity
+	out := make([]byte, bufLen+padLen)
+	copy(out, buf)
+	copy(out[bufLen:], bytes.Repeat([]byte{byte(padLen)}, padLen))
+	return out, nil
 }
 
 // UnpadPKCS7 removes PKCS#7 from a message.
